@@ -1,6 +1,5 @@
 from __future__ import annotations
 
-from dataclasses import is_dataclass
 import inspect
 import warnings
 from abc import ABC
@@ -371,30 +370,31 @@ class Grammar:
                 considered_subtypes.append(k)
                 new_symbols.append(k)
 
+        def symbols_of(k):
+            """The grammar symbols mentioned by a field type, whatever wrappers it has."""
+            if is_metahandler(k) or is_generic_list(k):
+                yield from symbols_of(get_generic_parameter(k))
+            elif is_generic(k):
+                for v in get_generic_parameters(k):
+                    yield from symbols_of(v)
+            else:
+                yield k
+
+        builtins = [bool, int, str, float, list, tuple]
         while new_symbols:
             c = new_symbols.pop(0)
             if c in self.alternatives:
                 for k in self.alternatives[c]:
                     add(k)
-            elif is_dataclass(c):
-                for _, k in get_arguments(c):
-                    if is_metahandler(k):
-                        k = get_generic_parameter(k)
-                        add(k)
-                    elif is_generic_list(k):
-                        k = get_generic_parameter(k)
-                        add(k)
-                    elif is_generic(k):
-                        for v in get_generic_parameters(k):
-                            add(v)
-                    else:
-                        add(k)
-            elif c in [bool, int, str, float, list, tuple]:
+            elif c in builtins:
                 pass
             else:
-                assert False
+                for _, k in get_arguments(c):
+                    for symbol in symbols_of(k):
+                        add(symbol)
 
-        return extract_grammar(considered_subtypes, self.starting_symbol)
+        considered_subtypes = [c for c in considered_subtypes if c not in builtins]
+        return extract_grammar(considered_subtypes, self.starting_symbol, self.expansion_depthing)
 
     def get_grammar_properties_summary(self) -> GrammarSummary:
         """Returns a summary of grammar properties:
